@@ -420,7 +420,13 @@ theorem allocLive_invG {s s' : State V} {c size cap : Nat} {val : Option V} {a :
       (∀ b, s.isLive b → s'.mem.get? b = s.mem.get? b) ∧
       s'.mem.get? a = some ⟨some a, size, cap, val⟩ ∧
       (∀ q hq, s'.pages.get? q = some hq → hq.evac = true → s.pages.get? q = some hq) ∧
-      (∀ q hq, s.pages.get? q = some hq → hq.evac = true → s'.pages.get? q = some hq) := by
+      (∀ q hq, s.pages.get? q = some hq → hq.evac = true → s'.pages.get? q = some hq) ∧
+      (∃ p i h', a = .sh p i ∧ s'.pages.get? p = some h' ∧ h'.evac = false ∧ h'.cls = c) ∧
+      (∀ q hq', s'.pages.get? q = some hq' →
+        (∃ hq, s.pages.get? q = some hq ∧ hq.cls = hq'.cls ∧ hq.evac = hq'.evac) ∨
+        (s.pages.get? q = none ∧ q = s.nextPage ∧ hq'.evac = false ∧ hq'.cls = c)) ∧
+      s.nextPage ≤ s'.nextPage ∧
+      (∀ q, s.pages.get? q = none → q ≠ s.nextPage → s'.pages.get? q = none) := by
   unfold allocLive at hr
   simp only [] at hr
   generalize hs1 : (if (s.K c).glist.isEmpty && (s.K c).cur.isNone then newPage s c else s) = s1 at hr
@@ -444,6 +450,26 @@ theorem allocLive_invG {s s' : State V} {c size cap : Nat} {val : Option V} {a :
     subst hs1; intro q hq h1; split
     · rw [newPage_pages, if_neg]; exact h1
       intro e; have := (inv.pages q hq h1).lt_next; omega
+    · exact h1
+  have sA2 : ∀ q hq, s1.pages.get? q = some hq → s.pages.get? q = some hq ∨
+      (s.pages.get? q = none ∧ q = s.nextPage ∧ hq.evac = false ∧ hq.cls = c) := by
+    subst hs1; intro q hq h1; split at h1
+    · rw [newPage_pages] at h1; split at h1
+      · next e =>
+        cases h1; right
+        refine ⟨?_, e.symm, rfl, rfl⟩
+        cases hx : s.pages.get? q with
+        | none => rfl
+        | some hh => have := (inv.pages q hh hx).lt_next; omega
+      · exact Or.inl h1
+    · exact Or.inl h1
+  have sA3 : s.nextPage ≤ s1.nextPage := by
+    subst hs1; split
+    · simp [newPage]
+    · exact Nat.le_refl _
+  have sA4 : ∀ q, s.pages.get? q = none → q ≠ s.nextPage → s1.pages.get? q = none := by
+    subst hs1; intro q h1 h2; split
+    · rw [newPage_pages, if_neg (fun e => h2 e.symm)]; exact h1
     · exact h1
   clear hs1
   have okc := inv1.classes c
@@ -480,9 +506,22 @@ theorem allocLive_invG {s s' : State V} {c size cap : Nat} {val : Option V} {a :
     · intro q hq h1 h2; simp only [KMap.get?_set] at h1; split at h1
       · cases h1; simp only [hev] at h2; cases h2
       · exact pg1 q hq h1 h2
-    · intro q hq h1 h2; simp only [KMap.get?_set]; split
-      · next e => subst e; have := pg2 _ _ h1; rw [hp] at this; cases this; rw [hev] at h2; cases h2
-      · exact pg2 _ _ h1
+    · refine ⟨?_, ⟨p, h.brk, { h with used := h.used + 1, brk := h.brk + 1, free := h.free - 1 }, rfl, by simp only [KMap.get?_set, if_true], hev, hcl⟩, ?_, sA3, ?_⟩
+      · intro q hq h1 h2; simp only [KMap.get?_set]; split
+        · next e => subst e; have := pg2 _ _ h1; rw [hp] at this; cases this; rw [hev] at h2; cases h2
+        · exact pg2 _ _ h1
+      · intro q hq' h1; simp only [KMap.get?_set] at h1; split at h1
+        · next e =>
+          subst e; cases h1
+          rcases sA2 _ _ hp with x | ⟨x1, x2, x3, x4⟩
+          · exact Or.inl ⟨h, x, rfl, rfl⟩
+          · exact Or.inr ⟨x1, x2, hev, hcl⟩
+        · rcases sA2 _ _ h1 with x | x
+          · exact Or.inl ⟨hq', x, rfl, rfl⟩
+          · exact Or.inr x
+      · intro q h1 h2; simp only [KMap.get?_set]; split
+        · next e => subst e; have := sA4 _ h1 h2; rw [hp] at this; cases this
+        · exact sA4 _ h1 h2
   | none =>
     simp only [hcur] at hr
     cases hgl : (s1.K c).glist with
@@ -541,9 +580,22 @@ theorem allocLive_invG {s s' : State V} {c size cap : Nat} {val : Option V} {a :
       · intro q hq h1 h2; simp only [KMap.get?_set] at h1; split at h1
         · cases h1; simp only [hev] at h2; cases h2
         · exact pg1 q hq h1 h2
-      · intro q hq h1 h2; simp only [KMap.get?_set]; split
-        · next e => subst e; have := pg2 _ _ h1; rw [hp] at this; cases this; rw [hev] at h2; cases h2
-        · exact pg2 _ _ h1
+      · refine ⟨?_, ⟨p, i, { h with freeList := h.freeList.erase i, used := h.used + 1, free := h.free - 1 }, rfl, by simp only [KMap.get?_set, if_true], hev, hcl⟩, ?_, sA3, ?_⟩
+        · intro q hq h1 h2; simp only [KMap.get?_set]; split
+          · next e => subst e; have := pg2 _ _ h1; rw [hp] at this; cases this; rw [hev] at h2; cases h2
+          · exact pg2 _ _ h1
+        · intro q hq' h1; simp only [KMap.get?_set] at h1; split at h1
+          · next e =>
+            subst e; cases h1
+            rcases sA2 _ _ hp with x | ⟨x1, x2, x3, x4⟩
+            · exact Or.inl ⟨h, x, rfl, rfl⟩
+            · exact Or.inr ⟨x1, x2, hev, hcl⟩
+          · rcases sA2 _ _ h1 with x | x
+            · exact Or.inl ⟨hq', x, rfl, rfl⟩
+            · exact Or.inr x
+        · intro q h1 h2; simp only [KMap.get?_set]; split
+          · next e => subst e; have := sA4 _ h1 h2; rw [hp] at this; cases this
+          · exact sA4 _ h1 h2
 
 
 /-! ### facts about the generated table -/
@@ -1368,6 +1420,13 @@ theorem moveNext_invG {s s' : State V} {c pg : Nat} (inv : InvG s) (hc : c < nCl
     (∃ h h', s.pages.get? pg = some h ∧ s'.pages.get? pg = some h' ∧ h'.scan = h.scan + 1 ∧
         h'.brk = h.brk ∧ h'.evac = true ∧ h.evac = true ∧ h'.cls = h.cls ∧ h.scan < h.brk) ∧
     (∀ q hq, s'.pages.get? q = some hq → hq.evac = true → q = pg ∨ s.pages.get? q = some hq) ∧
+    ((∀ q hq', s'.pages.get? q = some hq' →
+        (∃ hq, s.pages.get? q = some hq ∧ hq.cls = hq'.cls ∧ hq.evac = hq'.evac) ∨
+        (s.pages.get? q = none ∧ s.nextPage ≤ q ∧ hq'.evac = false ∧ hq'.cls = c)) ∧
+      s.nextPage ≤ s'.nextPage ∧
+      (∀ q, s.pages.get? q = none → q < s.nextPage → s'.pages.get? q = none) ∧
+      (∀ o n, s'.relog = (o, n) :: s.relog →
+        ∃ np ni h', n = .sh np ni ∧ s'.pages.get? np = some h' ∧ h'.evac = false ∧ h'.cls = c)) ∧
     ((s'.live = s.live ∧ s'.relog = s.relog ∧ s'.mem = s.mem) ∨
      (∃ i new l, s.live.get? (.sh pg i) = some l ∧ ¬ s.isLive new ∧
         s'.relog = (.sh pg i, new) :: s.relog ∧
@@ -1397,8 +1456,23 @@ theorem moveNext_invG {s s' : State V} {c pg : Nat} (inv : InvG s) (hc : c < nCl
         cases hq : s.live.get? (.sh pg h.scan) with
         | none => rfl
         | some l => exact absurd ((this.1 (by simp [State.isLive, hq])).2) (fun x => x hin)
+      have PF : (∀ q hq', (s.pages.set pg { h with scan := h.scan + 1 }).get? q = some hq' →
+          (∃ hq, s.pages.get? q = some hq ∧ hq.cls = hq'.cls ∧ hq.evac = hq'.evac) ∨
+          (s.pages.get? q = none ∧ s.nextPage ≤ q ∧ hq'.evac = false ∧ hq'.cls = c)) ∧
+          s.nextPage ≤ s.nextPage ∧
+          (∀ q, s.pages.get? q = none → q < s.nextPage → (s.pages.set pg { h with scan := h.scan + 1 }).get? q = none) ∧
+          (∀ o n, s.relog = (o, n) :: s.relog →
+            ∃ np ni h', n = .sh np ni ∧ (s.pages.set pg { h with scan := h.scan + 1 }).get? np = some h' ∧ h'.evac = false ∧ h'.cls = c) := by
+        refine ⟨?_, Nat.le_refl _, ?_, ?_⟩
+        · intro q hq' h1; simp only [KMap.get?_set] at h1; split at h1
+          · next e => subst e; cases h1; exact Or.inl ⟨h, hp, rfl, rfl⟩
+          · exact Or.inl ⟨hq', h1, rfl, rfl⟩
+        · intro q h1 _; simp only [KMap.get?_set]; split
+          · next e => subst e; rw [hp] at h1; cases h1
+          · exact h1
+        · intro o n e; exact absurd e.symm (List.cons_ne_self _ _)
       refine ⟨?_, rfl, rfl, ⟨h, { h with scan := h.scan + 1 }, rfl, by simp only [KMap.get?_set, if_true], rfl, rfl, hev, hev, rfl, hsc⟩,
-        ?_, Or.inl ⟨rfl, rfl, rfl⟩⟩
+        ?_, PF, Or.inl ⟨rfl, rfl, rfl⟩⟩
       · refine evac_advance inv hp hev hsc (h3 := { h with scan := h.scan + 1 }) rfl hev rfl rfl rfl rfl
           (by intro q; simp only [KMap.get?_set]) (fun c' => ⟨rfl, rfl, rfl, rfl⟩) ?_ rfl rfl rfl
         intro b; split
@@ -1428,7 +1502,7 @@ theorem moveNext_invG {s s' : State V} {c pg : Nat} (inv : InvG s) (hc : c < nCl
       · have t := table_facts.2 c hc
         obtain ⟨i1, i2, i3, ⟨np, ni, hnew⟩, i5, i6, i7, i8, i9, i10, i11⟩ :=
           allocLive_invG inv hc t.1 (by rw [m2]; exact m4) (by rw [← hcc]; exact g3) hal
-        have hp1 : s1.pages.get? pg = some h := i11 pg h hp hev
+        have hp1 : s1.pages.get? pg = some h := i11.1 pg h hp hev
         simp only [hp1] at hr
         cases hr
         have hne : new ≠ .sh pg h.scan := fun e => i2 (by rw [e]; exact hlive)
@@ -1440,7 +1514,34 @@ theorem moveNext_invG {s s' : State V} {c pg : Nat} (inv : InvG s) (hc : c < nCl
                       cls := s2.cls.set h2.cls { s2.K h2.cls with freeSlots := (s2.K h2.cls).freeSlots + 1 } } := by
           intro s2 h2 e; simp only [freeSlot, e, if_true]
         rw [hfs _ _ (by exact hev)]
-        refine ⟨?_, by simp only [i5], ?_, ⟨h, { h with scan := h.scan + 1, used := h.used - 1, free := h.free + 1 }, rfl, by simp only [KMap.get?_set, if_true], rfl, rfl, hev, hev, rfl, hsc⟩, ?_, Or.inr ?_⟩
+        obtain ⟨i11a, ⟨np', ni', hn', A1a, A1b, A1c, A1d⟩, A2, A3, A4⟩ := i11
+        have PF : (∀ q hq', (s1.pages.set pg { h with scan := h.scan + 1, used := h.used - 1, free := h.free + 1 }).get? q = some hq' →
+            (∃ hq, s.pages.get? q = some hq ∧ hq.cls = hq'.cls ∧ hq.evac = hq'.evac) ∨
+            (s.pages.get? q = none ∧ s.nextPage ≤ q ∧ hq'.evac = false ∧ hq'.cls = c)) ∧
+            s.nextPage ≤ s1.nextPage ∧
+            (∀ q, s.pages.get? q = none → q < s.nextPage →
+              (s1.pages.set pg { h with scan := h.scan + 1, used := h.used - 1, free := h.free + 1 }).get? q = none) ∧
+            (∀ o n, (Addr.sh pg h.scan, new) :: s1.relog = (o, n) :: s.relog →
+              ∃ np ni h', n = .sh np ni ∧
+                (s1.pages.set pg { h with scan := h.scan + 1, used := h.used - 1, free := h.free + 1 }).get? np = some h' ∧
+                h'.evac = false ∧ h'.cls = c) := by
+          refine ⟨?_, A3, ?_, ?_⟩
+          · intro q hq' h1; simp only [KMap.get?_set] at h1; split at h1
+            · next e => subst e; cases h1; exact Or.inl ⟨h, hp, rfl, rfl⟩
+            · rcases A2 q hq' h1 with ⟨hq, x1, x2, x3⟩ | ⟨x1, x2, x3, x4⟩
+              · exact Or.inl ⟨hq, x1, x2, x3⟩
+              · exact Or.inr ⟨x1, by omega, x3, x4⟩
+          · intro q h1 h2; simp only [KMap.get?_set]; split
+            · next e => subst e; rw [hp] at h1; cases h1
+            · exact A4 q h1 (by omega)
+          · intro o n e
+            have e2 := (List.cons.inj e).1
+            cases e2
+            refine ⟨np', ni', hn', A1a, ?_, A1c, A1d⟩
+            simp only [KMap.get?_set]; split
+            · next e3 => subst e3; rw [hp1] at A1b; cases A1b; rw [hev] at A1c; cases A1c
+            · exact A1b
+        refine ⟨?_, by simp only [i5], ?_, ⟨h, { h with scan := h.scan + 1, used := h.used - 1, free := h.free + 1 }, rfl, by simp only [KMap.get?_set, if_true], rfl, rfl, hev, hev, rfl, hsc⟩, ?_, PF, Or.inr ?_⟩
         · refine evac_advance i1 hp1 hev hsc
             (h3 := { h with scan := h.scan + 1, used := h.used - 1, free := h.free + 1 }) rfl hev rfl rfl rfl rfl
             (by intro q; simp only [KMap.get?_set]) ?_ ?_ rfl rfl rfl
@@ -1644,7 +1745,7 @@ theorem Moved.same {s0 t t' : State V} (m : Moved s0 t) (hl : t'.live = t.live) 
 theorem moveNext_moved {s0 t t' : State V} {c pg : Nat} (inv : InvG t) (hc : c < nClasses)
     (hcls : ∀ h, t.pages.get? pg = some h → h.evac = true → h.cls = c)
     (hr : moveNext t c pg = .ok t') (m : Moved s0 t) : Moved s0 t' := by
-  obtain ⟨_, _, _, _, _, f⟩ := moveNext_invG inv hc hcls hr
+  obtain ⟨_, _, _, _, _, _, f⟩ := moveNext_invG inv hc hcls hr
   rcases f with ⟨f1, f2, _⟩ | ⟨i, new, lo, f1, f2, f3, f4, f5, f6, _⟩
   · exact m.same f1 f2
   · intro a l h
